@@ -16,6 +16,8 @@ INVARIANT TableOK
 INVARIANT InternerOK
 INVARIANT AgreesWithLib
 INVARIANT ValueOnly
+INVARIANT HashFormAgrees
+INVARIANT ValueLawsAgree
 INVARIANT UniqueAreSubTrees
 INVARIANT SerRelation
 INVARIANT TriangleInv
